@@ -66,7 +66,7 @@ PROPS = {
                        "proxy process. Every request goes to E and to P; the two answers must agree in status, error code, every response header "
                        "except Date / Last-Modified / Server / request ids, and body (XML compared canonically with LastModified / Initiated / "
                        "CreationDate / error Message blanked, empty elements dropped, upload ids mapped to placeholders); a proxy process that dies is a "
-                       "violation. At the end listing, uploads, ACL and policy of both sides must agree. Also: Expires values that are no dates, ListMultipartUploads with either marker alone or both, CreateBucket for the bucket that exists (owner and non-owner). Bucket names take the forms client libraries treat specially (dots, the suffixes --x-s3, --ol-s3, -s3alias, the prefix xn--). Versions and delete markers are read, HEADed and deleted by the ids each side announced (the n-th on either side). The quick tier runs 1200 programs."),
+                       "violation. At the end listing, uploads, ACL and policy of both sides must agree. Also: Expires values that are no dates, ListMultipartUploads with either marker alone or both, CreateBucket for the bucket that exists (owner and non-owner). Bucket names take the forms client libraries treat specially (dots, the suffixes --x-s3, --ol-s3, -s3alias, the prefix xn--). Versions and delete markers are read, HEADed and deleted by the ids each side announced (the n-th on either side). The quick tier runs 1200 programs. A second bucket may exist that was made outside the gateway (on the proxied endpoint directly): CreateBucket of its name, listings and ListBuckets by the gateway's accounts are compared."),
         "level_note": ("Half of the cases create the bucket with ACLs enabled (PutBucketAcl is then really carried out); open finding C18-acl-does-not-fit-the-reserved-tag ends a case at the diverging PutBucketAcl. Two open findings narrow the oracle: bucket tagging is not implemented by the proxy backend (operations excluded by construction, "
                        "strict replay kept), and the Owner of listed objects is the backend account (difference tolerated only for exactly that element). "
                        "An upload the endpoint refuses before reading the body may race with the proxy's sdk client (reset while writing => 500): such a "
@@ -87,7 +87,7 @@ PROPS = {
                        "--event-webhook-url and a generated --event-filter file (absent / per-event booleans / wildcards). A receiver inside the harness "
                        "collects the records. After quiescence the multiset of records must equal the expectation: exactly one record per key "
                        "affected by a successful request whose event type passes the filter, none for failed requests, right bucket, byte-exact key, "
-                       "event type, size and ETag (for puts). The receiver answers 200, 201, 202 or 204. The receiver may reply with a body; batches hold up to 12 keys. A third of the cases run on a bucket that keeps versions: the notification of a write names the version its response announced, that of a delete the delete marker; every other copy names the version of its source explicitly (the event is about the new version all the same)."),
+                       "event type, size and ETag (for puts). The receiver answers 200, 201, 202 or 204. The receiver may reply with a body; batches hold up to 12 keys. A third of the cases run on a bucket that keeps versions: the notification of a write names the version its response announced, that of a delete the delete marker; every other copy names the version of its source explicitly (the event is about the new version all the same). Batch deletes may ask for a quiet result."),
         "level_note": "Keys include directory objects (ending in '/'). quiescence = all expected records arrived and 400 ms of silence, or 7 s (> 2x the sender's own client time-out). Two open findings narrow the oracle: size 0 in copy / multipart notifications, and batch-delete notifications for keys whose deletion failed. Exploration only.",
         "rule": ("case = (filter, clients, ops). Non-trivial: >= 2 clients and >= 1 failing request; distinct by the full case."),
         "assumptions": ["webhook delivery on loopback; kafka / nats senders are not exercised (no broker offline)"],
@@ -108,7 +108,7 @@ PROPS = {
                        "write (semantic equality), deleted settings are absent; (R) DeleteBucket racing PutObject / CreateMultipartUpload / "
                        "CompleteMultipartUpload / CreateBucket / a second DeleteBucket under a harness-owned schedule (the C05 machinery: every operation "
                        "parks at each filesystem-step hook on the bucket, a generated list of choices releases them): an upload that was acknowledged must "
-                       "be readable afterwards unless no DeleteBucket was acknowledged ... i.e. never both acknowledged with the object gone. (S) runs on the xattr and on the sidecar store, includes deleting and re-creating the bucket (a new bucket: nothing of the old one's settings applies) and ACLs written as documents with several grants per grantee. (D) DeleteBucket over buckets with files, directory objects at depth 1-3 and planted empty plain directories: 409 with every object intact while one exists, 204 afterwards. (S) also puts objects whose keys look like settings storage and treats a 5xx on a valid settings write as a violation."),
+                       "be readable afterwards unless no DeleteBucket was acknowledged ... i.e. never both acknowledged with the object gone. (S) runs on the xattr and on the sidecar store, includes deleting and re-creating the bucket (a new bucket: nothing of the old one's settings applies) and ACLs written as documents with several grants per grantee. (D) DeleteBucket over buckets with files, directory objects at depth 1-3 and planted empty plain directories: 409 with every object intact while one exists, 204 afterwards. (S) also puts objects whose keys look like settings storage and treats a 5xx on a valid settings write as a violation. Layer D: after DeleteBucket another account may create the bucket anew - owner, ACL and access of the first one must not act on the second."),
         "level_note": "The race part can stall an operation after k of its steps (sched.Starve), lets one client write a key twice in a row, has competing creations of a new bucket, and in versioned buckets demands that every acknowledged version survives a refused DeleteBucket. AWS-reserved name prefixes / suffixes (xn--, -s3alias ...) are not part of the rules checked. Exploration only.",
         "rule": ("N: non-trivial = a name of legal length and character set (the remaining rules decide); B: a create on an existing bucket or a paged "
                  "listing; S: a get after a put / delete of the same setting; R: two operations of the race were in flight together. Distinct by full case."),
@@ -132,7 +132,7 @@ PROPS = {
                        "without the bypass permission, with or without the bypass header. Model: protection ends only by an authorised legal-hold "
                        "OFF, by a GOVERNANCE bypass of a permission holder (root / admin with the header: outcome not judged), by removal of the "
                        "default rule, or by expiry. After every step, while the model says protected, GET of the version (by id when versioned) "
-                       "returns the original bytes; a COMPLIANCE retention is never shortened / downgraded, a GOVERNANCE one only by a permission holder. The retention may also come from the upload's x-amz-object-lock-* headers (mode spelled in three cases); deletes naming a version id the key does not have are among the destructive steps, also without a versions store. The protected object may be a directory object; a second policy style allows s3:* and then denies the bypass permission explicitly."),
+                       "returns the original bytes; a COMPLIANCE retention is never shortened / downgraded, a GOVERNANCE one only by a permission holder. The retention may also come from the upload's x-amz-object-lock-* headers (mode spelled in three cases); deletes naming a version id the key does not have are among the destructive steps, also without a versions store. The protected object may be a directory object; a second policy style allows s3:* and then denies the bypass permission explicitly. Round 7: the unprotected version on top of a protected one may be deleted by id (the protected version, now current, keeps its protection); batch deletes may name two versions of the protected key."),
         "level_note": "Also drawn: buckets without any bucket policy, a protected version that lies below an unprotected current one (protection by version id), batch deletes that carry the protected key among unprotected ones, an empty lock configuration (open finding, excluded). removing the bucket default retention rule ends the protection it gave (the gateway keeps no per-object copy of a default retention; recorded as a modelling decision, see DESIGN.md). In-process engine. Exploration only.",
         "rule": ("case = (versioned, sidecar, protection, bob's bypass permission, ops). Non-trivial: a destructive request was accepted while protection was in "
                  "force (legitimately or not) or a weakening was refused; distinct by the full case."),
@@ -171,7 +171,7 @@ PROPS = {
                        "number. Checks: complete succeeds only if the selection is valid (existing, strictly ascending, current ETags, all but the "
                        "last >= 5 MiB); then GET = concatenation (streamed MD5), ETag = md5(md5s)-N, metadata of the initiation; otherwise the "
                        "key reads exactly as before; part ETag = MD5 of the exact source interval for copies; listings equal the model; parts / "
-                       "uploads never show as objects; closed uploads answer NoSuchUpload; open uploads keep exactly their parts. Scripted uploads number their parts 1..5 or with mixed digit counts (2, 10, 11, 100 ...), list their parts in pages from markers, and ListMultipartUploads is followed in pages of max-uploads through both next markers. CompleteMultipartUpload may state x-amz-mp-object-size (right, zero, wrong, negative). Requests under an upload id that names no upload of the key (empty, well-formed but never handed out, the id of an upload on another key) - part, part copy, ListParts, completion, abort - must be refused and change nothing. (R) uploads of one key under a generated schedule: an initiation, an abort or completion of another upload of the key, a part, listings - afterwards every acknowledged unfinished upload is listed, takes a part and lists it, a finished one is gone. Part copies also read versions of a key in a versioned bucket (older, current, unknown id)."),
+                       "uploads never show as objects; closed uploads answer NoSuchUpload; open uploads keep exactly their parts. Scripted uploads number their parts 1..5 or with mixed digit counts (2, 10, 11, 100 ...), list their parts in pages from markers, and ListMultipartUploads is followed in pages of max-uploads through both next markers. CompleteMultipartUpload may state x-amz-mp-object-size (right, zero, wrong, negative). Requests under an upload id that names no upload of the key (empty, well-formed but never handed out, the id of an upload on another key) - part, part copy, ListParts, completion, abort - must be refused and change nothing. (R) uploads of one key under a generated schedule: an initiation, an abort or completion of another upload of the key, a part, listings - afterwards every acknowledged unfinished upload is listed, takes a part and lists it, a finished one is gone. Part copies also read versions of a key in a versioned bucket (older, current, unknown id). The object that part copies read from may itself have been completed from a multipart upload."),
         "level_note": "a valid completion that is refused is not judged (the statement is 'only if'); open-ended copy ranges are accepted when honoured exactly. In-process engine, xattr or sidecar, both temp-file strategies. Exploration only.",
         "rule": ("case = (config, ops). Non-trivial: an upload with >= 2 parts is completed, or a completion uses a re-uploaded part, or two uploads are open "
                  "for the same key; distinct by the full case."),
@@ -250,7 +250,7 @@ PROPS = {
                        "is substituted into a valid request of the catalogue, spelled raw in the request line, percent-encoded (upper / lower / "
                        "mixed) or double-encoded, signed for an account authorised for bucket A only (or root). Oracle: the byte-level snapshot of the "
                        "whole sandbox except bucket A's own storage is unchanged, the answer contains no canary from outside A, and no outside "
-                       "canary has been pulled into A's files. Gateways and the test process run as an unprivileged uid. One hostile value is the staged part of another object's multipart upload spelled as a key: no request naming it as an object may read, change or list it. Version ids get the depth of the versions store, the copy source may be a versioned key, a hostile batch key sits alone, first or between harmless ones, and a third generator spells the staging area with leading separators. A name that only resolves to an object's file ('obj/' for the file object obj, 'dirobj' for the directory object dirobj/, doubled separators) is not that object's name: its data and its attributes (metadata, tags) must stay as they are and no read under that name may succeed."),
+                       "canary has been pulled into A's files. Gateways and the test process run as an unprivileged uid. One hostile value is the staged part of another object's multipart upload spelled as a key: no request naming it as an object may read, change or list it. Version ids get the depth of the versions store, the copy source may be a versioned key, a hostile batch key sits alone, first or between harmless ones, and a third generator spells the staging area with leading separators. A name that only resolves to an object's file ('obj/' for the file object obj, 'dirobj' for the directory object dirobj/, doubled separators) is not that object's name: its data and its attributes (metadata, tags) must stay as they are and no read under that name may succeed. A share of the listings is aimed into the staging area by construction (every listing's walk has its own way of skipping it)."),
         "level_note": "Hostile depths are weighted by what the parameter is joined to (storage root vs bucket), callers include an admin, and a hostile query parameter may be accompanied by a harmless second occurrence before or after it. escape depth is bounded by the sandbox (11 levels); root naming another bucket by a clean name is authorised for that bucket. Exploration only.",
         "rule": ("case = (config, op, key, caller, parameter, hostile string, spelling, engine). Non-trivial: the hostile value, joined lexically to the directory "
                  "the parameter is relative to, designates a location outside bucket A's storage; distinct by the full tuple."),
@@ -269,7 +269,7 @@ PROPS = {
                        "documents), path tails, aws-chunked bodies with hostile framing. Plus a sweep that enumerates operation x own parameter x all "
                        "26 numeric boundary values and operation x hostile document. After each request: no panic anywhere in the in-process chain / "
                        "the real process is alive, the answer arrives within 30 s and parses as HTTP with an S3 <Error> document (or a plain 4xx of the "
-                       "HTTP layer), allocations stay below 256 MiB + 16x the bytes actually sent (no allocation sized by a merely declared number), and ListBuckets by root still answers 200. The fixture holds several uploads in progress (marker sweeps over ListMultipartUploads); one subprocess world runs with --access-log. The body sweep includes 52 policy documents with hostile field values; the subprocess world runs with a one second account cache."),
+                       "HTTP layer), allocations stay below 256 MiB + 16x the bytes actually sent (no allocation sized by a merely declared number), and ListBuckets by root still answers 200. The fixture holds several uploads in progress (marker sweeps over ListMultipartUploads); one subprocess world runs with --access-log. The body sweep includes 52 policy documents with hostile field values; the subprocess world runs with a one second account cache. Every world has crash leftovers of the multipart staging area on its storage. Layer W: the shipped binary with a notification receiver that withholds its answers - batch deletes, deletes, uploads, copies and tagging calls must be answered while it does."),
         "level_note": "Also mutated after signing: X-Amz-Date / Authorization / X-Amz-Content-Sha256 cut at 16 lengths; aws-chunked trailer line out of shape (6 forms); the sweep (run completely in both tiers) empties / drops every leaf of each operation's document and sends every hostile document to the ACL operations on a bucket with ACLs enabled. bounded time is a 30 s hang detector, not a latency bound; a 5xx with a well-formed error document is accepted (the statement asks for well-formedness, not for a specific status). Exploration only.",
         "rule": ("case = (config, op, target, caller, mutations, bad-auth, chunk hack, engine); every case is non-trivial (at least one field is hostile); distinct by the full tuple."),
         "assumptions": ["in-process engine replicates runGateway wiring; TestC20P observes death of the shipped binary directly", "event sender, audit logger and metrics are off"],
@@ -289,7 +289,7 @@ PROPS = {
                        "correctly signed, is sent to a gateway in read-only mode that shares its storage with a normal gateway. Oracle: the "
                        "snapshot of root + versioning + sidecar directories is unchanged; if the same request changes the storage on the normal "
                        "twin the read-only gateway must have answered 4xx; a read request gets the same status and body from both. The "
-                       "real-process share runs `versitygw --readonly` (flag plumbing of cmd/versitygw). The read-only world contains a bucket directory that was not made through the gateway."),
+                       "real-process share runs `versitygw --readonly` (flag plumbing of cmd/versitygw). The read-only world contains a bucket directory that was not made through the gateway. The catalogue's PutObjectTagging also comes with an empty tag set (which removes the tags)."),
         "level_note": "admin API routes are not S3 API requests and are left out; the in-process twin pair runs in one process on one sandbox. Exploration only.",
         "rule": ("case = (config, op, bucket, key, slash, copy source, caller, presign, chunked, engine). Non-trivial: the read-write twin mutates "
                  "(in-process) / the catalogue marks the op as mutating (process); distinct by the full tuple."),
@@ -308,7 +308,7 @@ PROPS = {
                        "date skew/scope/expiry ...) x body kind (none, small, 64 KiB, aws-chunked, declared-but-short). The damaged request must "
                        "be answered 4xx, leave the snapshot of root+versioning+sidecar+IAM+outside directories unchanged and disclose no canary; "
                        "the undamaged twin shows whether the route does anything for a valid caller. In-process engine (fresh gateway + fixture per "
-                       "case) for volume, the shipped binary for the real wiring. Presigned requests carry an x-id parameter; presigned defects include a date ahead of the clock and a signed value that now ends in a URL delimiter followed by another parameter. Further defects: the right signature in another written form (case, appended text), an altered body accompanied by a fitting Content-MD5, bodies sent with chunked transfer coding (no announced length). Round 7: two more kinds of damage - one letter of the path replaced by the text of its percent escape (decoded once another key, decoded twice the signed one) and two signed query parameters merged into one whose name contains '=' and '&'; both were accepted for presigned URLs on the pinned tree (repaired)."),
+                       "case) for volume, the shipped binary for the real wiring. Presigned requests carry an x-id parameter; presigned defects include a date ahead of the clock and a signed value that now ends in a URL delimiter followed by another parameter. Further defects: the right signature in another written form (case, appended text), an altered body accompanied by a fitting Content-MD5, bodies sent with chunked transfer coding (no announced length). Round 7: two more kinds of damage - one letter of the path replaced by the text of its percent escape (decoded once another key, decoded twice the signed one) and two signed query parameters merged into one whose name contains '=' and '&'; both were accepted for presigned URLs on the pinned tree (repaired). Real-process worlds include gateways started with --admin-port (admin calls go to that listener); altered queries include bare sub-resource flags."),
         "level_note": "Defect kinds include a duplicated signed header (second occurrence with another value) and an alteration confined to the data of the last aws-chunked chunk; a second Host / Content-Type / X-Amz-Date is not judged (single-valued in the HTTP layer resp. replaced by the verifier before use). a damaged request that still carries a correct proof according to the harness' signer is discarded and counted, never judged; a presigned URL dated in the future is not treated as a defect (the statement does not list it). Exploration only.",
         "rule": ("case = (config, catalogue op, bucket, key, slash, caller, header/presign, body kind, defect, arg, short). Non-trivial: the undamaged twin "
                  "succeeded (in-process) / the catalogue marks the route as mutating (real process); distinct by (op, bucket, key, slash, defect, body, presign, short, engine)."),
@@ -328,7 +328,7 @@ PROPS = {
                        "the history must be linearizable w.r.t. a map of accounts (all attributes). (S) real goroutines mutate auth.NewInternal "
                        "concurrently; the observed history must be linearizable and users.json must parse and equal the model. (B) through a real "
                        "gateway process: create => first request works (and, as root with --chuid/--chgid, files carry the account's uid/gid); "
-                       "secret change => old 403 / new 200; delete => 403; concurrent admin mutations => list-users equals the model. (F) one account through one client, sequentially: the account (role admin) or root changes its secret; header and presigned requests with the current and with replaced secrets have exactly one allowed outcome each. Access keys of the end-to-end layer contain '+' and percent sequences in a third of the cases. (H) lookups answered from the cache, by 1-8 goroutines in real parallel through the real cache and store, while the account gets a new secret, is deleted or created again: once the change is acknowledged and the parallel lookups have ended, a lookup shows the new state. (F) also probes with signed aws-chunked uploads whose chunk signatures are made with the current or with a replaced secret."),
+                       "secret change => old 403 / new 200; delete => 403; concurrent admin mutations => list-users equals the model. (F) one account through one client, sequentially: the account (role admin) or root changes its secret; header and presigned requests with the current and with replaced secrets have exactly one allowed outcome each. Access keys of the end-to-end layer contain '+' and percent sequences in a third of the cases. (H) lookups answered from the cache, by 1-8 goroutines in real parallel through the real cache and store, while the account gets a new secret, is deleted or created again: once the change is acknowledged and the parallel lookups have ended, a lookup shows the new state. (F) also probes with signed aws-chunked uploads whose chunk signatures are made with the current or with a replaced secret. Layer F: a new account must act in its role at once (admin API, CreateBucket), also when the role was spelled in another letter case and acknowledged; layer H compares role, user id and group id of cached lookups."),
         "level_note": "Authentication probes of the end-to-end part use the Authorization header or a presigned URL. interleavings are explored at the granularity of the service call boundary (before / after effect); ops blocked on locks inside the code are recognised by a 4 ms quiescence rule which can only lengthen recorded intervals (sound). Staleness across different gateway processes is outside the statement.",
         "rule": ("A: (pre-existing keys, <=7 ops, <=24 schedule choices); non-trivial: a lookup overlaps a mutation of the same key in real time or a created "
                  "account has a non-zero uid/gid. S: non-trivial: >= 2 mutations of one key overlap. B: every program is non-trivial (it contains a change followed by use)."),
@@ -351,7 +351,7 @@ PROPS = {
                        "/ resource JSON shape, exact / s3:* / trailing-* actions, resource globs) vs 'some Allow matches and no Deny matches', plus "
                        "invariance under statement permutation and string<->array re-shaping; (D) documents made invalid for one known reason "
                        "(15 reasons from the statement) must be refused, identically on 26 repetitions, while the valid control is accepted; "
-                       "(B) through the gateway: refused PUT leaves the previous policy byte-exact, model decisions confirmed with real GetObject. Subjects of the matcher contain literal '*' and '?'. Invalid documents also lack one of the four elements of a statement altogether, or are a valid document followed by further bytes."),
+                       "(B) through the gateway: refused PUT leaves the previous policy byte-exact, model decisions confirmed with real GetObject. Subjects of the matcher contain literal '*' and '?'. Invalid documents also lack one of the four elements of a statement altogether, or are a valid document followed by further bytes. Documents use trailing-* action patterns that cover actions of one kind only, derived from the action lists."),
         "level_note": "oracle = model/policy.go written from the statement; '?' is judged only where the byte and the character reading agree. Exploration only.",
         "rule": ("G: (pattern, subject) over {a,b,/,*,?} and a wider alphabet, subjects derived from the pattern then perturbed; non-trivial: >= 2 wildcards. "
                  "E: non-trivial: >= 2 statements of both effects and the query matches at least one statement. D/B: non-trivial: the document "
@@ -412,7 +412,7 @@ PROPS = {
         "level_text": ("Generated-input search: every Range string class of the quantifier x object sizes incl. 0 and 1 is compared "
                        "with a reference model of the statement, both on the exported parser and through the full request path "
                        "(status, Content-Range, Content-Length, body bytes). Exploration, not proof: absence of violations is only "
-                       "established for the cases generated. Also: a directory object (zero bytes, GET and HEAD), objects with text / json content types and requests with Accept-Encoding (no Content-Encoding may appear). One case in eight is asked of a gateway with the s3 backend (two real processes: proxy in front of a posix gateway holding the same objects)."),
+                       "established for the cases generated. Also: a directory object (zero bytes, GET and HEAD), objects with text / json content types and requests with Accept-Encoding (no Content-Encoding may appear). One case in eight is asked of a gateway with the s3 backend (two real processes: proxy in front of a posix gateway holding the same objects). Requests may carry If-Range and x-amz-checksum-mode; objects completed from multipart uploads (no stored checksums) are read as well."),
         "level_note": "trusts the harness' own SigV4 client and the in-process wiring shim (copied from runGateway); model/rangespec.go states which answers are accepted where the statement leaves a choice",
         "rule": ("Range strings drawn from a grammar (a-b, a-, -n, multi, reversed, huge, signs, white space, "
                  "other units, garbage) x object sizes {0,1,2,3,10,4096,70001,(A: any <=100000)}; layer A calls "
